@@ -100,4 +100,22 @@ def process_metadata(args, out):
                 want_inj.append(b)
     if inj != want_inj:
         return False, "inject_code blocks delivered %r, expected %r (each distinct block once, first-occurrence order)" % (inj, want_inj)
+    # C06: metadata-declared collections carry their declaration (backend, name, headers, container and element type, pointer-ness)
+    backends = {"add_atlas_event_collection_info": "atlas", "add_cms_aod_event_collection_info": "cms_aod", "add_cms_miniaod_event_collection_info": "cms_miniaod"}
+    colls = [r for r, c in zip(res, cls) if c == "EventCollectionSpecification"]
+    decl = [m for m in mds if m.get("metadata_type") in backends]
+    if len(colls) != len(decl):
+        return False, "%d collection specifications delivered for %d collection declarations" % (len(colls), len(decl))
+    for sp, m in zip(colls, decl):
+        be = backends[m["metadata_type"]]
+        ct = sp["container_type"]
+        if sp["backend_name"] != be or sp["name"] != m["name"] or sp["include_files"] != list(m["include_files"]) or ct["type"] != m["container_type"]:
+            return False, "collection declaration %r became %r" % (m, sp)
+        if "element_type" in m:
+            el = ct.get("element")
+            want_ptr = 1 if (be == "atlas" or m.get("element_pointer")) else 0
+            if el is None or el["type"] != m["element_type"] or el["p_depth"] != want_ptr:
+                return False, "collection declaration %r: elements delivered as %r, declared %s with pointer depth %d" % (m, el, m["element_type"], want_ptr)
+        if sp["libraries"] != (list(m.get("link_libraries", [])) if be == "atlas" else []):
+            return False, "collection declaration %r: libraries %r" % (m, sp["libraries"])
     return True, ""
